@@ -240,8 +240,8 @@ def rule_split(ctx, F, rule="R1", ST=ST, SK=SK, KF="mina_core::timeline::Keyfram
                 ctx.ob(rule, lab + "/fresh-override", ok, "a new sub-timeline has no start override", body["span"],
                        what="override-preset")
     if floors:
-        ctx.floor(rule, "loop-body rows of from_keyframes", n_body, 9)
-        ctx.floor(rule, "epilogue rows of from_keyframes", n_epi, 4)
+        ctx.floor(rule, "loop-body rows of from_keyframes", n_body, 2)
+        ctx.floor(rule, "epilogue rows of from_keyframes", n_epi, 2)
 
 
 def _is_empty_vec(t):
@@ -421,8 +421,8 @@ def rule_lookup(ctx, F, rule2="R2", rule3="R3", ST=ST, SK=SK, floors=True):
                "bounding frames must be %s with frame 0 replaced by the override only when enabled and present; got "
                "start=%s end=%s" % (want, show(START), show(END)), body["span"], trace_of(p), what="bounding-pair-wrong")
     if floors:
-        ctx.floor(rule3, "eased-lerp rows of value_at", n_lerp, 8)
-        ctx.floor(rule3, "zero-length rows of value_at", n_zero, 8)
+        ctx.floor(rule3, "eased-lerp rows of value_at", n_lerp, 2)
+        ctx.floor(rule3, "zero-length rows of value_at", n_zero, 1)
 
 
 def rule_zero_length(ctx, F, rule="R1"):
@@ -443,7 +443,7 @@ def rule_zero_length(ctx, F, rule="R1"):
             ctx.ob(rule, "zero-length/row[%s]" % ",".join(str(v) for (_, v, _) in p.conds), ok,
                    "a zero-length segment must yield the start frame's value exactly; yields %s" % show(val), body["span"],
                    trace_of(p), what="zero-length-value")
-    ctx.floor(rule, "zero-length rows", n, 8)
+    ctx.floor(rule, "zero-length rows", n, 1)
 
 
 # ---------------------------------------------------------------------------------------------------
@@ -497,7 +497,7 @@ def rule_search(ctx, F, rule="R4"):
         ctx.ob(rule, lab + "/comparator", okc,
                "the search comparator must order element vs. the position handed on, ascending, through a total order "
                "(|t| t.total_cmp(&position)); it is %s" % got, body["span"], trace_of(p), what="search-comparator-wrong")
-    ctx.floor(rule, "prepare_frame rows", n, 8)
+    ctx.floor(rule, "prepare_frame rows", n, 3)
 
 
 def eng_body(F, clo):
